@@ -18,4 +18,4 @@ Separate Extraction
   Fault.rebase Fault.error_records Fault.with_imputed
   QcInst.qc_make QcInst.qc_num QcInst.qc_den
   QcRun.q_refine1 QcRun.q_basis1 QcRun.q_dbasis1 QcRun.q_tpredict QcRun.q_tpredict_abs QcRun.q_tgrad
-  QcRun.q_misc_predict QcRun.q_misc_grad QcRun.q_mk_grid QcRun.q_trace_ok QcRun.q_normalize QcRun.q_denormalize QcRun.q_norm_domain.
+  QcRun.q_misc_predict QcRun.q_misc_grad QcRun.q_thess QcRun.q_misc_hess QcRun.q_mk_grid QcRun.q_trace_ok QcRun.q_normalize QcRun.q_denormalize QcRun.q_norm_domain.
